@@ -352,6 +352,7 @@ struct Session {
     reported: BTreeMap<String, String>,
     out: Vec<u8>,
     copy_rows: usize,
+    copy_fail_at_done: bool,
     copy_rest: VecDeque<String>,
     portals: BTreeMap<String, (String, Option<StmtDef>)>,
 }
@@ -582,12 +583,20 @@ impl Session {
             "COPY" => {
                 if up.contains("FROM STDIN") {
                     self.snap.in_copy_in = true;
+                    self.copy_fail_at_done = sql.contains("failatdone");
                     self.copy_rows = 0;
                     self.emit(wire::copy_in_response());
                     return true;
                 } else if up.contains("TO STDOUT") {
                     let (rows, size) = row_opts(sql);
                     self.emit(wire::copy_out_response());
+                    if sql.contains("failmid") {
+                        // the server gives up in the middle of the stream: no CopyDone, no CommandComplete
+                        let d = format!("conn={}\t0\t{}\t\n", self.id, sql).into_bytes();
+                        self.emit(wire::copy_data(&d));
+                        self.error("XX001", &format!("COPY TO failed mid-stream: {}", sql));
+                        return false;
+                    }
                     for i in 0..rows {
                         let mut d = format!("conn={}\t{}\t{}\t", self.id, i, sql).into_bytes();
                         while d.len() < size {
@@ -730,6 +739,13 @@ impl Session {
             match m.code {
                 b'd' => {
                     self.copy_rows += 1;
+                    return Flow::Continue;
+                }
+                b'c' if self.copy_fail_at_done => {
+                    self.snap.in_copy_in = false;
+                    self.error("23505", "duplicate key value violates unique constraint (COPY rejected at CopyDone)");
+                    self.copy_rest.clear();
+                    self.ready();
                     return Flow::Continue;
                 }
                 b'c' => {
@@ -1138,6 +1154,7 @@ async fn serve_inner(net: Shared, id: usize, addr: String, s: &mut DuplexStream)
         reported: BTreeMap::new(),
         out: vec![],
         copy_rows: 0,
+        copy_fail_at_done: false,
         copy_rest: VecDeque::new(),
         portals: BTreeMap::new(),
     };
